@@ -55,6 +55,9 @@ pub enum DEv {
     Raw { c: u8 },
     /// `find_bp_at_text_pos(pos)`.
     Locate { c: u8, pos: u64 },
+    /// Evaluate yq program template `t` with the REAL generic evaluator (yq semantics) at
+    /// the client's node: a realistic burst of position-table and line-index lookups.
+    Yq { c: u8, t: u8 },
     /// Move client `c` to replica `r`.
     Switch { c: u8, r: u8 },
     Restart { r: u8 },
@@ -120,6 +123,7 @@ pub const REACH: &[&str] = &[
     "doc_empty_value_at_eof",// 40
     "sample_crossing_gap",   // 41 forward gap whose distinct-position rank crosses a multiple of 256
     "doc_op_panics_identically_on_fresh_clone", // 42 history-independent panic (outside C17), not reported
+    "doc_yq_eval",           // 43 evaluator-level client
 ];
 const R_S_SEQ: usize = 0;
 const R_E_SEQ: usize = 6;
@@ -154,6 +158,7 @@ const R_DOC_FINAL: usize = 39;
 const R_DOC_EOF: usize = 40;
 const R_SAMPLE_X: usize = 41;
 const R_DOC_PANIC_BOTH: usize = 42;
+const R_DOC_YQ: usize = 43;
 
 pub const FAULTS: &[&str] = &["restart", "fork", "out_of_range"];
 const F_RESTART: usize = 0;
@@ -685,8 +690,28 @@ pub fn gen_yaml_doc(rng: &mut Rng) -> Vec<u8> {
     g.out
 }
 
+pub fn yq_template(t: u8) -> &'static str {
+    match t % 14 {
+        0 => ".",
+        1 => "[.. | line]",
+        2 => "[.[]? | column]",
+        3 => "keys",
+        4 => "[.. | tag]",
+        5 => "[.. | anchor]",
+        6 => "[paths]",
+        7 => "length",
+        8 => "to_entries",
+        9 => "[.. | select(kind == \"scalar\")]",
+        10 => "[.[]?] | reverse",
+        11 => "[.. | style]",
+        12 => "[.. | [line, column]]",
+        _ => "[.[]? | .[]? | line]",
+    }
+}
+
 #[derive(Clone, Copy)]
 enum DKind {
+    Evaluator,
     DfsWalker,
     Climber,
     Jumper,
@@ -707,6 +732,8 @@ fn gen_doc_events(rng: &mut Rng, text_len: usize) -> (Vec<DEv>, String) {
     let mut sched = Sched::new(rng, n_clients, cap);
     let fault_den = *rng.pick(&[0u64, 0, 50, 20, 8]);
     let kinds = [
+        DKind::Evaluator,
+        DKind::Evaluator,
         DKind::DfsWalker,
         DKind::DfsWalker,
         DKind::Climber,
@@ -738,6 +765,12 @@ fn gen_doc_events(rng: &mut Rng, text_len: usize) -> (Vec<DEv>, String) {
             });
         }
         let ev = match ck[ci] {
+            DKind::Evaluator => match rng.below(6) {
+                0 => DEv::Child { c },
+                1 => DEv::Jump { c, k: rng.below(500) },
+                2 => DEv::Sib { c },
+                _ => DEv::Yq { c, t: rng.below(14) as u8 },
+            },
             DKind::DfsWalker => match rng.below(10) {
                 0..=4 => DEv::Child { c },
                 5..=7 => DEv::Sib { c },
@@ -1132,9 +1165,14 @@ fn exec_doc(dc: &DocCase, obs: &mut Obs) -> Result<(), Failure> {
             _ => {}
         }
         let c = match ev {
-            DEv::Child { c } | DEv::Sib { c } | DEv::Parent { c } | DEv::Jump { c, .. } | DEv::Json { c } | DEv::Raw { c } | DEv::Locate { c, .. } => {
-                *c as usize % MAXC
-            }
+            DEv::Child { c }
+            | DEv::Sib { c }
+            | DEv::Parent { c }
+            | DEv::Jump { c, .. }
+            | DEv::Json { c }
+            | DEv::Raw { c }
+            | DEv::Yq { c, .. }
+            | DEv::Locate { c, .. } => *c as usize % MAXC,
             _ => 0,
         };
         obs.step(c as u8);
@@ -1194,6 +1232,25 @@ fn exec_doc(dc: &DocCase, obs: &mut Obs) -> Result<(), Failure> {
                 }
                 if got != want {
                     return Err(mismatch("doc_raw_bytes", seq, opv(), json!(got), json!(want)));
+                }
+            }
+            DEv::Yq { t, .. } => {
+                let prog = yq_template(*t);
+                if let Ok(expr) = succinctly::jq::parse_with_mode(prog, succinctly::jq::ParserMode::Yq) {
+                    obs.reach.hit(R_DOC_YQ);
+                    let bp_pos = at[c];
+                    let got = caught(|| crate::jqrun::eval_to_string::<succinctly::jq::YqSemantics, _>(&expr, cur));
+                    let want = caught(|| {
+                        fresh_answer(&pristine, |f| {
+                            crate::jqrun::eval_to_string::<succinctly::jq::YqSemantics, _>(&expr, YamlCursor::new(f, text, bp_pos))
+                        })
+                    });
+                    if got.is_err() {
+                        obs.reach.hit(R_DOC_PANIC_BOTH);
+                    }
+                    if got != want {
+                        return Err(mismatch("doc_yq_program", seq, opv(), json!({"program": prog, "result": got}), json!({"program": prog, "result": want})));
+                    }
                 }
             }
             DEv::Locate { pos, .. } => {
@@ -1281,6 +1338,7 @@ impl Scenario for C17 {
             "doc_final_json_equal",
             "doc_empty_value_at_eof",
             "sample_crossing_gap",
+            "doc_yq_eval",
         ]
     }
 
@@ -1319,7 +1377,7 @@ impl Scenario for C17 {
                 t.starts.len() >= 2 && (clients >= 2 || faults >= 1) && classes >= 3
             }
             Case::Doc(_) => {
-                let kinds = [R_DOC_NAV, R_DOC_JSON, R_DOC_RAW, R_DOC_LOC]
+                let kinds = [R_DOC_NAV, R_DOC_JSON, R_DOC_RAW, R_DOC_LOC, R_DOC_YQ]
                     .iter()
                     .filter(|&&i| obs.reach.v[i] > 0)
                     .count();
